@@ -116,6 +116,12 @@ CHECKS = {
             "Exhaustive model check of the flow; all 2-call behaviours (quick: sample) and 3-call behaviours executed on the real client with "
             "TLC judging signature, account, password derivation, session id, attempt budget, error mapping and the returned entry; "
             "end-to-end auto-connect with LE/BE registration.", "5 C19"),
+    "C20": ("TLA+ Cli.tla + CliCatalogue.tla (documented catalogue of settings, token parser, per-kind conversion, Control = reject-before-send or "
+            "reported state overridden by the pairs): TLC checks conversion totality, garbage rejection and field-local overriding in-model "
+            "(MC_Cli); msmart.cli.main() is run in-process with crafted argv on the simulated V2/V3 network and TLC, parsing the "
+            "command-line tokens itself, judges exit status, bytes sent, frames received by the appliance and its state before/after (Trace_Cli)",
+            "In-model check of the catalogue; ~1.4k (quick) / ~25k (thorough) real CLI invocations over every setting x spelling, garbage "
+            "values, invalid names, all setting pairs and random multi-setting lines, judged by TLC.", "5 C20"),
 }
 
 
@@ -137,8 +143,7 @@ def build():
             "level_note": NOTE,
             "technique": tech,
         })
-    na = [{"property_id": i, "reason": "check not built yet (framework under construction in this round)"}
-          for i in ids if i not in CHECKS]
+    na = [{"property_id": i, "reason": "check not built yet"} for i in ids if i not in CHECKS]
     m = {
         "version": 1,
         "setup_cmd": "./setup.sh",
